@@ -193,6 +193,9 @@ class LetExpression(TypedExpression):
         if self.after and isinstance(self.after[0], Comment) and self.after[0].inline:
             if after_str and not after_str.startswith((" ", "\n")):
                 after_str = " " + after_str
+        elif after_str:
+            # Own-line trailing trivia starts on the line after the body.
+            after_str = "\n" + after_str
         if (
             self.after
             and self.after[-1] not in (linebreak, empty_line)
